@@ -146,16 +146,8 @@ func rulePartialCalls(c *Ctx, r *Report, rule string, reach map[*ssa.Function]bo
 			cnt := c.objOfExpr(call.Args[1])
 			guarded := false
 			for _, ft := range splitFacts(c.factsAt(body, call)) {
-				be, ok := ft.Cond.(*ast.BinaryExpr)
-				if !ok || !c.isObj(be.X, cnt) || cnt == nil {
-					continue
-				}
-				k, isC := c.intConst(be.Y)
-				if !isC {
-					continue
-				}
-				switch {
-				case be.Op == token.LSS && k == 0 && !ft.Pos, be.Op == token.GEQ && k == 0 && ft.Pos, be.Op == token.LEQ && k == -1 && !ft.Pos, be.Op == token.GTR && k == -1 && ft.Pos:
+				b, ok := c.boundOf(condAtom{E: ft.Cond, Pos: ft.Pos, Init: ft.Init})
+				if ok && cnt != nil && c.isObj(b.X, cnt) && b.Lo != nil && *b.Lo >= 0 {
 					guarded = true
 				}
 			}
@@ -202,51 +194,42 @@ func ruleIfaceEq(c *Ctx, r *Report, rule string, reach map[*ssa.Function]bool) {
 			}
 			n++
 			guarded := false
-			for _, ft := range c.factsAt(body, be) {
-				// !(isBlock(a) && isBlock(b)) holds, or isBlock(x) is false, or a positive scalar type test
-				e := stripParens(ft.Cond)
-				pos := ft.Pos
-				for {
-					ue, ok := e.(*ast.UnaryExpr)
-					if !ok || ue.Op != token.NOT {
-						break
-					}
-					e, pos = stripParens(ue.X), !pos
-				}
-				var scan func(e ast.Expr, pos bool)
-				scan = func(e ast.Expr, pos bool) {
-					e = stripParens(e)
-					if ue, ok := e.(*ast.UnaryExpr); ok && ue.Op == token.NOT {
-						scan(ue.X, !pos)
-						return
-					}
-					if b2, ok := e.(*ast.BinaryExpr); ok {
-						if b2.Op == token.LAND && pos {
-							scan(b2.X, pos)
-							scan(b2.Y, pos)
-							return
-						}
-						if b2.Op == token.LAND && !pos {
-							// !(isBlock && isBlock)
-							l, ok1 := stripParens(b2.X).(*ast.CallExpr)
-							rr, ok2 := stripParens(b2.Y).(*ast.CallExpr)
-							if ok1 && ok2 && c.calleeName(l) == "isBlock" && c.calleeName(rr) == "isBlock" && types.ExprString(l.Args[0]) != types.ExprString(rr.Args[0]) {
-								guarded = true
-							}
-							return
-						}
-					}
-					if call, ok := e.(*ast.CallExpr); ok {
+			isScalarTest := func(n string) bool {
+				return n == "isInt" || n == "isFloat" || n == "isString" || n == "isBool" || n == "isNumber"
+			}
+			for _, nf := range factNFs(c.factsAt(body, be)) {
+				for _, a := range nf.knownAtoms() {
+					if call, ok := a.E.(*ast.CallExpr); ok {
 						name := c.calleeName(call)
-						if name == "isBlock" && !pos {
-							guarded = true
-						}
-						if pos && (name == "isInt" || name == "isFloat" || name == "isString" || name == "isBool" || name == "isNumber") {
+						if (name == "isBlock" && !a.Pos) || (a.Pos && isScalarTest(name)) {
 							guarded = true
 						}
 					}
 				}
-				scan(e, pos)
+				// a disjunction all of whose members exclude a block operand: !isBlock(a) || !isBlock(b)
+				var scanOr func(n *condNF)
+				scanOr = func(n *condNF) {
+					if n.Or != nil {
+						all := len(n.Or) > 0
+						for _, k := range n.Or {
+							ok := false
+							if k.Atom != nil {
+								if call, isC := k.Atom.E.(*ast.CallExpr); isC {
+									name := c.calleeName(call)
+									ok = (name == "isBlock" && !k.Atom.Pos) || (k.Atom.Pos && isScalarTest(name))
+								}
+							}
+							all = all && ok
+						}
+						if all {
+							guarded = true
+						}
+					}
+					for _, k := range n.And {
+						scanOr(k)
+					}
+				}
+				scanOr(nf)
 			}
 			r.check(guarded, rule, fmt.Sprintf("%s/iface-eq#%d", ssaFuncName(f), n), "guarded against block == block", "two run-time values are compared with == without excluding that both are blocks (comparing two Block values panics: uncomparable type)", c.pos(be.Pos()))
 			return true
@@ -676,8 +659,8 @@ func ruleLexerProgress(c *Ctx, r *Report, rule string) {
 					bad = name + " returns " + x.Name
 				}
 			case *ast.CallExpr:
-				if c.calleeName(x) != "lexer.fail" {
-					bad = name + " returns the result of " + c.calleeName(x)
+				if !c.isFailingHelper(c.calleeName(x), 0) {
+					bad = name + " returns the result of " + c.calleeName(x) + ", which is not lexer.fail or a helper ending in it"
 				}
 			default:
 				bad = name + " returns a computed state"
@@ -800,4 +783,47 @@ func sortedReach(reach map[*ssa.Function]bool) []*ssa.Function {
 		return out[i].Pos() < out[j].Pos()
 	})
 	return out
+}
+
+// isFailingHelper: name is lexer.fail, or a function every return of which is nil or a failing helper's result.
+func (c *Ctx) isFailingHelper(name string, depth int) bool {
+	if name == "lexer.fail" {
+		return true
+	}
+	if depth > 3 || name == "" {
+		return false
+	}
+	_, fd := c.find(name)
+	if fd == nil || fd.Body == nil {
+		return false
+	}
+	ok, n := true, 0
+	ast.Inspect(fd.Body, func(x ast.Node) bool {
+		if _, isLit := x.(*ast.FuncLit); isLit {
+			return false
+		}
+		rs, isR := x.(*ast.ReturnStmt)
+		if !isR {
+			return true
+		}
+		n++
+		if len(rs.Results) != 1 {
+			ok = false
+			return true
+		}
+		switch v := rs.Results[0].(type) {
+		case *ast.Ident:
+			if v.Name != "nil" {
+				ok = false
+			}
+		case *ast.CallExpr:
+			if !c.isFailingHelper(c.calleeName(v), depth+1) {
+				ok = false
+			}
+		default:
+			ok = false
+		}
+		return true
+	})
+	return ok && n > 0
 }
